@@ -6,8 +6,8 @@ ctvmodel C01: replays the `ac` lines of the C01 harness (one add-chain / add-pre
 history order; `reset` starts a new log with an empty backend) on `CTV.Model.AddChain` with real SHA-256.
 
 ```
-ac <log SPKI> <now ms> <precert 0|1> n (<der> <spki> <tbs> <isPreIssuer>)*n <defanged TBS | - | x>
-=> 200 <leaf value> <extra data> <identity hash> <sct_version> <log id> <timestamp> <extensions> <signed digest>  |  <status>
+ac <log SPKI> <Go type of the log's public key> <now ns> <precert 0|1> n (<der> <spki> <tbs> <isPreIssuer>)*n <defanged TBS | - | x>
+=> 200 <leaf value> <extra data> <identity hash> <sct_version> <log id> <timestamp> <extensions> <hash alg> <sig alg> <signed digest>  |  <status>
 ```
 -/
 namespace CTV.Driver.C01
@@ -27,17 +27,20 @@ def step (st : State) (line : String) : State × String :=
     | rest => rest
   match ts with
   | ["reset"] => ([], "ok")
-  | "ac" :: spki :: now :: pre :: n :: rest =>
-    match fromHex spki, parseNat? now, parseBool? pre, parseNat? n with
+  | "ac" :: spki :: kind :: now :: pre :: n :: rest =>
+    match fromHex spki, parseInt? now, parseBool? pre, parseNat? n with
     | some spki, some now, some pre, some n =>
       match parseCerts n rest with
       | some (path, [de]) =>
         let deTBS : Option Bytes := if de = "x" then none else fromHex de
-        let cfg : Cfg := { H := Sha.sha256, logSPKI := spki, sign := fun _ => [], deTBS := fun _ _ => deTBS }
+        -- the log key is represented by (SubjectPublicKeyInfo, Go type); signatures are not compared (the digest is)
+        let K : KeyScheme := { Priv := Bytes × String, Pub := Bytes × String, pub := id, spkiOf := (·.1), kind := (·.2),
+                               sign := fun _ _ => [], verify := fun _ _ _ => true, correct := fun _ _ => rfl }
+        let cfg : Cfg := { H := Sha.sha256, K := K, k := (spki, kind), deTBS := fun _ _ => deTBS }
         match addChain cfg st now path pre with
         | (.ok sct q, st') =>
           (st', joinSp ["200", hexOrDash q.leafValue, hexOrDash q.extraData, hexOrDash q.idHash, toString sct.version, hexOrDash sct.logID,
-            toString sct.timestamp, hexOrDash sct.extensions, hexOrDash sct.signedDigest])
+            toString sct.timestamp, hexOrDash sct.extensions, toString sct.hashAlg, toString sct.sigAlg, hexOrDash sct.signedDigest])
         | (.bad status _, st') => (st', toString status)
       | _ => (st, "bad-op")
     | _, _, _, _ => (st, "bad-op")
